@@ -516,6 +516,16 @@ example : exec semL2n ((genOps Gen.kindPrefixes exH.net exOrder false).map OpRow
   rw [hlines 9 (by decide +kernel), ← hσ]
   decide +kernel
 
+/-- **the by-name capstone applied**: the unique model of the module with the pins of `u1`, `u2` read BY NAME exists and gives the
+output `y` the simulated value of line 9 under the stimulus (`a = 0, b1 = b2 = 1`: `y = 1`) -/
+example : ∃ σ, VModelLibN (libHas exLibN) exRowN exTLn exLM.ports exLS (fun p => exEnv (exH.net.idx.ppi + p)) σ ∧
+    vLabel {} exTLn exLS false prim2 σ 9 = true := by
+  obtain ⟨σ, hm, _, hlines, _⟩ := verilog_library_end_to_end_by_name {} exTLn exLM.ports exLS exLS_ok exLibN exLib_clean exH exNN_wf exNN_rok
+    exH_eq exRowN exOrdN exCerts exH_sn exOrder exH_sched.1 exH_sched.2.1 exH_sched.2.2 exEnv (by decide +kernel) exTl_fits exL_arity
+  refine ⟨σ, hm, ?_⟩
+  rw [← hlines 9 (by decide +kernel)]
+  decide +kernel
+
 /-- … and the same value by evaluating the program directly (independent of the theorem) -/
 example : exec semL2n ((genOps Gen.kindPrefixes exH.net exOrder false).map OpRow.toOp) exEnv 9 = true := by decide +kernel
 
